@@ -50,6 +50,16 @@ def _expr_place(body, place, depth=0, stop=()):
             (r, pth), = tg
             if r[0] == "local" and not pth and r[1] != l and depth < MAXD:
                 return expr_local(body, r[1], depth + 1, stop)
+            if r[0] == "local" and pth and r[1] != l and depth < MAXD and r[1] not in stop and not (1 <= r[1] <= body["argc"]) \
+                    and len(mir.defs(body).get(r[1], [])) == 1 and not mir.partial_defs(body).get(r[1]) \
+                    and all(isinstance(c, str) and c not in ("[]", "*", "?") for c in pth):
+                # a reference into a component of a single-definition local (e.g. a `ref` binding of a match on a call result):
+                # the value is that component of the local's value
+                base = expr_local(body, r[1], depth + 1, stop)
+                if base[0] != "var":
+                    for c in pth:
+                        base = ("proj", base, c)
+                    return base
         idx = []
         for pe in proj:
             if pe["k"] == "index":
